@@ -606,9 +606,21 @@ func (g *gen) stmtLoop(d int) {
 	defer func() { g.mult = saveMult }()
 
 	form := g.pick(100)
-	outerIsRange := form >= 58 && form < 80 || form >= 90
+	outerKind := "for3"
+	switch {
+	case form >= 34 && form < 48:
+		outerKind = "cond"
+	case form >= 48 && form < 58:
+		outerKind = "forever"
+	case form >= 58:
+		outerKind = "range"
+	}
+	unlabeled := false
 	label := ""
 	labeled := d >= 2 && g.chance(22)
+	if labeled && g.avoided("break-label:"+outerKind+"-outer") && g.avoided("continue-label:"+outerKind+"-outer") {
+		labeled = false // a label must be used, and no labeled jump is usable here
+	}
 	if labeled {
 		label = g.fresh("L")
 	}
@@ -638,13 +650,26 @@ func (g *gen) stmtLoop(d int) {
 		g.declare(&vr{name: j, t: scalars[kInt], ro: true, used: true, min: 0, max: int64(b2 - 1), bnd: true})
 		g.block(g.pick(2), 0)
 		kw := "break"
-		if g.chance(50) && !(outerIsRange && g.avoided("continue-label:range-outer")) {
+		if g.chance(50) {
 			kw = "continue"
+		}
+		if g.avoided(kw + "-label:" + outerKind + "-outer") {
+			// fall back to the other keyword, or to an unlabeled jump of the inner loop
+			other := map[string]string{"break": "continue", "continue": "break"}[kw]
+			if !g.avoided(other + "-label:" + outerKind + "-outer") {
+				kw = other
+			} else {
+				unlabeled = true
+			}
 		}
 		g.feat(kw + "-label")
 		g.line("if %s {", g.boolExpr(1))
 		g.ind++
-		g.line("%s %s", kw, label)
+		if unlabeled {
+			g.line("%s", kw)
+		} else {
+			g.line("%s %s", kw, label)
+		}
 		g.ind--
 		g.line("}")
 		g.block(1+g.pick(2), 0)
@@ -885,8 +910,15 @@ func (g *gen) stmtEarlyReturn() {
 	g.ind++
 	var es []string
 	g.retGuard()
+	multi := len(g.fc.results) > 1 && g.avoided("multi-return:eval-order")
+	if multi {
+		g.noCalls++
+	}
 	for _, t := range g.fc.results {
-		es = append(es, g.exprPos(t, 1, posArg))
+		es = append(es, g.exprPos(t, 1, posReturn))
+	}
+	if multi {
+		g.noCalls--
 	}
 	g.retDone()
 	g.line("return %s", strings.Join(es, ", "))
@@ -1027,7 +1059,7 @@ func (g *gen) closureBody(sig *fn, d int, head, tail string) {
 	var ret string
 	if len(sig.results) == 1 {
 		g.retGuard()
-		ret = g.exprPos(sig.results[0], 2, posArg)
+		ret = g.exprPos(sig.results[0], 2, posReturn)
 		g.retDone()
 	}
 	g.pop(false)
